@@ -257,6 +257,9 @@ impl MCOptimiser {
             // There is a limit to the usefulness though and 1e-4 has been good.
             if step_ratio > 1e-4 {
                 step_ratio *= self.inner_steps as f64 / (loop_rejections as f64 + 1.);
+                // Adapting to the rejection rate may shrink the moves, never grow them beyond
+                // the configured maximum step size.
+                step_ratio = f64::min(step_ratio, 1.);
             }
         }
         debug!(
